@@ -16,7 +16,9 @@ RULE = (
     'be re-read as a unary sign; and - the same kind of single edit - one operator deleted between parenthesised '
     "operands: '(1)(2)', '2(3)') must raise. Strategy long_flat: 65-200 operands on one nesting level. "
     'Non-trivial: >=3 operators from >=2 steps, or a sign adjacent to **, or a chained comparison, or function '
-    'nesting >=2, or an ill-formed variant. Distinct = distinct rendered string(s).'
+    'nesting >=2, or an ill-formed variant. Rounds 7-8: empty parentheses in place of a number or of a lone '
+    "operand (the single edit 'operand deleted'); comparisons of operands that are equal or differ by rounding "
+    'noise, decided exactly (strategy near_equal). Distinct = distinct rendered string(s).'
 )
 ASSUMPTIONS = [
     "default AtomBase atoms; literals are digits, decimals and unsigned exponents (1e3)",
